@@ -22,6 +22,8 @@ pub enum BOp {
     Find(i64, i64, i64, i64),
     Reverse(i64, i64, i64),
     Swap(i64, i64, i64),
+    /// a call with an operand of the wrong type (source text kept verbatim)
+    NonInt(String),
 }
 const STRINGS: [&str; 8] = ["", "a", "hello", "Meow 42", "h\u{e9}llo", "\u{65e5}\u{672c}", "x y z", "\u{1F600}!"];
 
@@ -51,6 +53,7 @@ fn src(op: &BOp) -> String {
         BOp::Find(h, a, b, n) => format!("bytes.find({}, {}, {}, {})", h, a, b, n),
         BOp::Reverse(h, o, l) => format!("bytes.reverse({}, {}, {})", h, o, l),
         BOp::Swap(h, i, j) => format!("bytes.swap({}, {}, {})", h, i, j),
+        BOp::NonInt(t) => t.clone(),
     }
 }
 
@@ -77,6 +80,7 @@ fn coq(op: &BOp) -> String {
         BOp::Find(h, a, bb, n) => format!("BFind {} {} {} {}", z(*h), z(*a), z(*bb), z(*n)),
         BOp::Reverse(h, o, l) => format!("BReverse {} {} {}", z(*h), z(*o), z(*l)),
         BOp::Swap(h, i, j) => format!("BSwap {} {} {}", z(*h), z(*i), z(*j)),
+        BOp::NonInt(_) => "BNonInt".into(),
     }
 }
 
@@ -178,6 +182,7 @@ fn ref_step(r: &mut RefB, op: &BOp) -> Want {
         BOp::Swap(h, i, j) => match r.live.get_mut(h) {
             Some(d) if *i >= 0 && *j >= 0 && (*i as usize) < d.len() && (*j as usize) < d.len() => { d.swap(*i as usize, *j as usize); Want::Unit }
             _ => Want::Err },
+        BOp::NonInt(_) => Want::Err,
     }
 }
 
@@ -185,16 +190,25 @@ fn op_kind(op: &BOp) -> &'static str {
     match op { BOp::Alloc(_) => "alloc", BOp::Free(_) => "free", BOp::Size(_) => "size", BOp::Resize(..) => "resize", BOp::Read { .. } => "read",
                BOp::Write { .. } => "write", BOp::WriteF { .. } => "write_f", BOp::Copy(..) => "copy", BOp::Fill(..) => "fill",
                BOp::Clone(_) => "clone", BOp::Equals(..) => "equals", BOp::FromString(_) => "from_string", BOp::Decode(..) => "decode",
-               BOp::WriteString(..) => "write_string", BOp::Find(..) => "find", BOp::Reverse(..) => "reverse", BOp::Swap(..) => "swap" }
+               BOp::WriteString(..) => "write_string", BOp::Find(..) => "find", BOp::Reverse(..) => "reverse", BOp::Swap(..) => "swap", BOp::NonInt(_) => "non-int-operand" }
 }
 
 
 /// inverse of `src` for replays: "bytes.write_u16_be(0, 1, 5); bytes.free(null); ..."
 fn parse_bops(text: &str) -> Vec<BOp> {
     let mut out = Vec::new();
-    for t in text.split(';') {
-        let t = t.trim();
-        if t.is_empty() { continue; }
+    for t0 in text.split(';') {
+        let t0 = t0.trim();
+        if t0.is_empty() { continue; }
+        let full = t0.to_string();
+        let parsed = std::panic::catch_unwind(|| parse_one(t0));
+        out.push(match parsed { Ok(op) => op, Err(_) => BOp::NonInt(full) });
+    }
+    out
+}
+
+fn parse_one(t: &str) -> BOp {
+    {
         let t = t.strip_prefix("bytes.").unwrap_or(t);
         let open = t.find('(').expect("(");
         let name = &t[..open];
@@ -226,9 +240,8 @@ fn parse_bops(text: &str) -> Vec<BOp> {
                 else { BOp::Write { w, sg: kind == 1, be, h: i(0), off: i(1), v: i(2) } }
             }
         };
-        out.push(op);
+        op
     }
-    out
 }
 
 // ---------------------------------------------------------------- generator
@@ -295,6 +308,21 @@ fn gen_bop(rng: &mut Rng, r: &RefB, f32ok: bool, dist: &mut Dist) -> BOp {
             _ => { dist.hit("malformed:negative-handle"); -rng.range_i64(1, 3) }
         }
     };
+    if rng.chance(1, 8) {
+        // an operand of the wrong type where an int (or number / string) is required
+        dist.hit("malformed:non-int-operand");
+        let g = live.first().cloned().unwrap_or(0);
+        let bad = *rng.pick(&["1.5", "true", "null", "\"s\""]);
+        let t = match rng.below(14) {
+            0 => format!("bytes.alloc({})", bad), 1 => format!("bytes.size({})", bad), 2 => format!("bytes.read_u8({}, 0)", bad),
+            3 => format!("bytes.read_u32({}, {})", g, bad), 4 => format!("bytes.write_u16({}, 0, {})", g, bad), 5 => format!("bytes.write_u8({}, {}, 1)", g, bad),
+            6 => format!("bytes.write_f64({}, 0, {})", g, *rng.pick(&["null", "true", "\"s\""])), 7 => format!("bytes.fill({}, 0, {}, 1)", g, bad),
+            8 => format!("bytes.copy({}, 0, {}, 0, 1)", g, bad), 9 => format!("bytes.resize({}, {})", g, bad), 10 => format!("bytes.from_string({})", *rng.pick(&["1", "null", "2.5"])),
+            11 => format!("bytes.write_string({}, 0, {})", g, *rng.pick(&["1", "null", "true"])), 12 => format!("bytes.free({})", *rng.pick(&["1.5", "true", "\"s\""])),
+            _ => format!("bytes.swap({}, {}, 0)", g, bad),
+        };
+        return BOp::NonInt(t);
+    }
     let k = rng.below(12);
     if k == 0 { dist.hit("malformed:alloc");
         if rng.chance(1, 3) { dist.hit("malformed:alloc-size-alias-of-small"); let n = rng.range_i64(1, 16) as i128; return BOp::Alloc(({ let k0 = n; alias_of(rng, k0, true) } as i64).max(1 << 32)); }
